@@ -22,12 +22,12 @@ func init() {
 
 // c06Case is one forwarding scenario on a live node.
 type c06Case struct {
-	Shape     int    `json:"shape"`     // index into c06Shapes
+	Shape     int    `json:"shape"` // index into c06Shapes
 	HasHop    bool   `json:"has_hop"`
 	Limit     uint64 `json:"limit"`
 	Count     uint64 `json:"count"`
 	ZeroTime  bool   `json:"zero_time"`
-	Age       uint64 `json:"age"`        // received bundle age in ms (if age block present)
+	Age       uint64 `json:"age"` // received bundle age in ms (if age block present)
 	HasAge    bool   `json:"has_age"`
 	Residence int64  `json:"residence_ms"`
 	LifeDelta int64  `json:"life_delta_ms"` // lifetime = time needed to still be alive at the (first) send + delta; <0 => expired by then
